@@ -36,6 +36,7 @@ def build(chk):
     c_solveHydroShock(chk)
     c_efficiency(chk)
     c_template(chk)
+    c_template_efficiency(chk)
 
 
 def c_helpers(chk):
@@ -293,6 +294,71 @@ def c_efficiency(chk):
     rets = sel(paths)
     if rets:
         chk.canary("efficiencyFactor.sum", rets[-1].pc, Eq(rets[-1].value, 1), func=fn)
+
+
+def c_template_efficiency(chk):
+    from wgvc.builtins_model import as_array
+    """Template efficiencyFactor: same decomposition as the general one, with enthalpies in units of wN:
+    w+ = (T+/Tn)^mu; w- from energy-flux continuity at the wall; shock-wave part 4/(vw^3 alN) Int xi^2 v^2 gamma^2 w dxi for vw < vJ starting
+    from the plasma velocity mu(vw, v+) at xi = vw with w+; rarefaction part with the opposite sign for vw > cb starting from mu(vw, v-), w-."""
+    TQ = "hydrodynamicsTemplateModel.HydrodynamicsTemplateModel"
+    fn = f"{TQ}.efficiencyFactor"
+    vw = real("vw")
+    M = {k: real(f"match.{k}") for k in ("vp", "vm", "Tp", "Tm")}
+    NP = 3
+
+    def integ(it, so, a, k):
+        n = sum(1 for e in it.events if e.get("name") == "integratePlasma")
+        t = as_array([it.fresh_real(f"sol{n}.v{j}") for j in range(NP)])
+        y = as_array([[it.fresh_real(f"sol{n}.xi{j}") for j in range(NP)], [it.fresh_real(f"sol{n}.w{j}") for j in range(NP)]])
+        it.event(kind="contract-call", name="integratePlasma", args=list(a), kwargs=dict(k), t=t, y=y)
+        return SymObj(None, None, label=f"sol{n}", attrs={"t": t, "y": y})
+    reg = {"HydrodynamicsTemplateModel.findMatching": lambda it, so, a, k: (M["vp"], M["vm"], M["Tp"], M["Tm"]),
+           "HydrodynamicsTemplateModel.integratePlasma": integ}
+    Tn_, mu_, alN, cb, vJt = real("Tnucl"), real("mu"), real("alN"), real("cb"), real("vJt")
+
+    def mk(it):
+        for c in (Gt(vw, 0), Lt(vw, 1), Gt(M["vp"], 0), Lt(M["vp"], 1), Gt(M["vm"], 0), Lt(M["vm"], 1), Gt(M["Tp"], 0), Gt(Tn_, 0), Gt(mu_, 1)):
+            it.assume(c)
+        return make_template(), [vw], {}, {}
+    paths = chk.summarize("hydrodynamicsTemplateModel", "HydrodynamicsTemplateModel.efficiencyFactor", mk, registry=reg, externals=stubs.EXTERNALS)
+    wp = (M["Tp"] / Tn_)**mu_
+    wm = gammaSq(M["vp"]) * M["vp"] * wp / (gammaSq(M["vm"]) * M["vm"])
+    seen = set()
+    for i, p in enumerate(sel(paths)):
+        sims = [e for e in p.events if e.get("kind") == "simpson"]
+        ints = [e for e in p.events if e.get("name") == "integratePlasma"]
+        if len(sims) != len(ints):
+            chk.undecided.append("template efficiencyFactor: simpson/integratePlasma calls do not pair up")
+            continue
+        total = 0
+        for e, s_ in zip(ints, sims):
+            a = list(e["args"]) + [e["kwargs"].get("shockWave")] if len(e["args"]) < 4 else list(e["args"])
+            rare = a[3] is False
+            kind = "rarefaction" if rare else "shock"
+            seen.add(kind)
+            chk.vc(f"template.efficiencyFactor.{kind}.integration-start.{i}", p.pc,
+                   And(Eq(a[0], mu(vw, M["vm"] if rare else M["vp"])), Eq(a[1], vw), Eq(a[2], wm if rare else wp),
+                       sym.to_sym(a[3] is False if rare else a[3] in (None, True))), func=fn)
+            t, y = e["t"], e["y"]
+            for j in range(NP):
+                chk.vc(f"template.efficiencyFactor.{kind}.integrand.{i}.{j}", p.pc,
+                       And(Eq(s_["y"].reshape(-1)[j], y[0][j]**2 * t[j]**2 * gammaSq(t[j]) * y[1][j]), Eq(s_["x"].reshape(-1)[j], y[0][j])), func=fn)
+            total = total + (-4 if rare else 4) * s_["result"] / (vw**3 * alN)
+            if rare:
+                chk.vc(f"template.efficiencyFactor.rarefaction.only-if-supersonic.{i}", p.pc, Gt(vw, cb), func=fn)
+            else:
+                chk.vc(f"template.efficiencyFactor.shock.only-for-deflagrations.{i}", p.pc, Lt(vw, vJt), func=fn)
+        chk.vc(f"template.efficiencyFactor.sum.{i}", p.pc, Eq(p.value, total), func=fn)
+        if len(ints) < 2:
+            chk.vc(f"template.efficiencyFactor.waves-taken.{i}", p.pc,
+                   And(*( [Ge(vw, vJt)] if "shock" not in [("rarefaction" if (list(e["args"]) + [e["kwargs"].get("shockWave")])[3] is False else "shock") for e in ints] else []),
+                       *( [Le(vw, cb)] if "rarefaction" not in [("rarefaction" if (list(e["args"]) + [e["kwargs"].get("shockWave")])[3] is False else "shock") for e in ints] else [])), func=fn)
+    if seen != {"shock", "rarefaction"}:
+        chk.undecided.append(f"template efficiencyFactor: wave kinds seen {sorted(seen)}")
+    rets = sel(paths)
+    if rets:
+        chk.canary("template.efficiencyFactor.sum", rets[-1].pc, Eq(rets[-1].value, 1), func=fn)
 
 
 def c_template(chk):
